@@ -190,6 +190,54 @@ def run_circuits(ctx):
     ctx.suite("circuits", cases=len(cases))
 
 
+def run_history(ctx):
+    """matrix, in-place pass on the same objects, matrix again: the second matrix must be the operator of the NEW state"""
+    from opensquirrel.circuit_matrix_calculator import get_circuit_matrix
+    from opensquirrel.utils.matrix_expander import get_matrix
+
+    from harness import implrun
+
+    rng = ctx.rng
+    n_cases = 0
+    for _ in range(ctx.pick(80, 800)):
+        n = rng.randint(2, 4)
+        specs = [s for s in gen.rand_circuit_spec(rng, n, 1, rng.randint(1, 7), p_nongate=0.1, max_ctrl=2) if s[0] != "measure_z"]
+        c = gen.build_circuit(n, 1, specs)
+        perm = list(range(n))
+        rng.shuffle(perm)
+        step = rng.choice([["map", perm], ["map", perm], ["merge"], ["decompose", "zyz"]])
+        case = {"n": n, "nb": 1, "specs": specs, "history": ["matrix", step, "matrix"]}
+        n_cases += 1
+        ctx.seen(case, any(gen.is_gate_spec(s) for s in specs))
+        try:
+            get_circuit_matrix(c)
+            for s in c.ir.statements:
+                if oracles.is_gate(s):
+                    get_matrix(s, n)
+            implrun.apply_pass(c, step)
+        except Exception:  # noqa: BLE001
+            continue
+        m2 = get_circuit_matrix(c)
+        want = oracles.circuit_unitary(c.ir.statements, n)
+        d = float(np.abs(m2 - want).max())
+        (mg, r), = model.call_many([["circuit_matrix", n, ser.ser_stmts(c.ir.statements)]])
+        mm = mat_from(r)
+        eq = mm[0] == "ok" and float(np.abs(m2 - mm[1]).max()) < 1e-10
+        if not eq:
+            ctx.disagree("history", case, "circuit matrix after an in-place pass differs from the model's matrix of the new state", mg)
+        if d > 1e-10:
+            ctx.oracle_fail("history", case, f"after {step[0]} the circuit matrix is not the product of the gates as they are now ({d:.3g})", eq)
+            continue
+        for s in c.ir.statements:
+            if oracles.is_gate(s):
+                small, sops = oracles.gate_small(s)
+                dd = float(np.abs(get_matrix(s, n) - oracles.embed(n, small, sops)).max())
+                if dd > 1e-12:
+                    ctx.oracle_fail("history", case, f"after {step[0]} get_matrix of {s!r} is not the operator on its current qubits ({dd:.3g})", eq)
+                    break
+    ctx.suite("history", cases=n_cases)
+
+
 def run(ctx):
     ctx.rule("every gate kind x every injective operand placement in registers 1..4 (quick 1..3; 5 sampled), control depth "
              "0..3, matrix gates on 2..4 operands with random unitaries, all 24 basis-permutation matrices on 2 operands; "
@@ -198,6 +246,7 @@ def run(ctx):
     run_gates(ctx)
     run_bits(ctx)
     run_circuits(ctx)
+    run_history(ctx)
 
 
 def replay(ctx, payload):
